@@ -31,6 +31,9 @@ struct Case {
     /// a Plugin Message sent this long after Client Information (i.e. during routing) arrives in two
     /// pieces: (delay after Client Information, cut, pause)
     extra_split: Option<(Duration, usize, Duration)>,
+    /// which tolerated frame the extra is: 0 Plugin Message, 1 Client Information again,
+    /// 2 Resource Pack Response, 3 Cookie Response
+    extra_kind: u8,
     seed: u64,
 }
 
@@ -74,7 +77,7 @@ fn generate(cli: &Cli) -> Vec<Case> {
                 for e in &echoes {
                     let mut lat = [Duration::ZERO; 3];
                     lat[slow_stage] = *l;
-                    out.push(Case { class: String::new(), pre_login: Duration::from_secs(pre), ci_delay: Duration::from_secs(ci), lat, echo: e.clone(), unsolicited: false, ka_write_stall: None, ci_split: None, extra_split: None, seed: rng.u64() });
+                    out.push(Case { class: String::new(), pre_login: Duration::from_secs(pre), ci_delay: Duration::from_secs(ci), lat, echo: e.clone(), unsolicited: false, ka_write_stall: None, ci_split: None, extra_split: None, extra_kind: 0, seed: rng.u64() });
                 }
             }
         }
@@ -82,7 +85,7 @@ fn generate(cli: &Cli) -> Vec<Case> {
     // the first Keep Alive is half written when discovery completes (every cut of the frame)
     for k in 1..10usize {
         for e in [EchoKind::Prompt, EchoKind::DelayedPermille(500), EchoKind::Never, EchoKind::WrongId] {
-            out.push(Case { class: String::new(), pre_login: Duration::ZERO, ci_delay: Duration::ZERO, lat: [Duration::ZERO; 3], echo: e, unsolicited: false, ka_write_stall: Some(k), ci_split: None, extra_split: None, seed: rng.u64() });
+            out.push(Case { class: String::new(), pre_login: Duration::ZERO, ci_delay: Duration::ZERO, lat: [Duration::ZERO; 3], echo: e, unsolicited: false, ka_write_stall: Some(k), ci_split: None, extra_split: None, extra_kind: 0, seed: rng.u64() });
         }
     }
     // random schedules with jitter
@@ -106,7 +109,8 @@ fn generate(cli: &Cli) -> Vec<Case> {
             unsolicited: rng.chance(1, 8),
             ka_write_stall: None,
             ci_split: if rng.chance(1, 6) { Some((1 + rng.usize_below(12), Duration::from_millis(rng.below(80_000)))) } else { None },
-            extra_split: if rng.chance(1, 6) { Some((Duration::from_millis(rng.below(50_000)), 1 + rng.usize_below(20), Duration::from_millis(rng.below(80_000)))) } else { None },
+            extra_split: if rng.chance(1, 6) { Some((Duration::from_millis(rng.below(50_000)), rng.usize_below(12), Duration::from_millis(rng.below(80_000)))) } else { None },
+            extra_kind: rng.below(4) as u8,
             seed: rng.u64(),
         });
     }
@@ -125,6 +129,7 @@ fn generate(cli: &Cli) -> Vec<Case> {
                     ka_write_stall: None,
                     ci_split: Some((cut, Duration::from_secs(pause))),
                     extra_split: None,
+                    extra_kind: 0,
                     seed: rng.u64(),
                 });
             }
@@ -144,6 +149,27 @@ fn generate(cli: &Cli) -> Vec<Case> {
                     ka_write_stall: None,
                     ci_split: None,
                     extra_split: Some((Duration::from_secs(at), cut, Duration::from_secs(pause))),
+                    extra_kind: 0,
+                    seed: rng.u64(),
+                });
+            }
+        }
+    }
+    // every kind of frame a waiting client may send, whole, in the middle of routing
+    for kind in 0..4u8 {
+        for at in [3u64, 20, 50] {
+            for e in [EchoKind::Prompt, EchoKind::DelayedPermille(500), EchoKind::Never] {
+                out.push(Case {
+                    class: String::new(),
+                    pre_login: Duration::ZERO,
+                    ci_delay: Duration::ZERO,
+                    lat: [Duration::from_secs(40), Duration::from_secs(30), Duration::from_secs(30)],
+                    echo: e,
+                    unsolicited: false,
+                    ka_write_stall: None,
+                    ci_split: None,
+                    extra_split: Some((Duration::from_secs(at), 0, Duration::ZERO)),
+                    extra_kind: kind,
                     seed: rng.u64(),
                 });
             }
@@ -165,7 +191,8 @@ fn generate(cli: &Cli) -> Vec<Case> {
             c.class = format!("{}/client-information-split@{}-pause-{}", c.class, cut.min(3), bucket(pause));
         }
         if let Some((at, cut, pause)) = c.extra_split {
-            c.class = format!("{}/plugin-message-at-{}-split@{}-pause-{}", c.class, bucket(at), cut.min(3), bucket(pause));
+            let what = ["plugin-message", "client-information-again", "resource-pack-response", "cookie-response"][c.extra_kind as usize % 4];
+            c.class = if cut == 0 { format!("{}/{what}-at-{}-whole", c.class, bucket(at)) } else { format!("{}/{what}-at-{}-split@{}-pause-{}", c.class, bucket(at), cut.min(3), bucket(pause)) };
         }
     }
     out
@@ -194,8 +221,16 @@ fn scenario(c: &Case, echo: Echo, lat: [Duration; 3]) -> (Scenario, std::net::So
     if let Some((at, cut, pause)) = c.extra_split {
         if let Some(pos) = plan.script.iter().position(|a| matches!(a, Act::Send { label, .. } if label == "ClientInformation")) {
             plan.script.insert(pos + 1, Act::Sleep(at));
-            plan.script.insert(pos + 2, send("ExtraPluginMessage", Pkt::ConfPluginMessageIn { raw: b"\x0fminecraft:brandvanilla-with-a-longer-tail".to_vec() }));
-            plan.seg.label_splits.push(("ExtraPluginMessage".into(), vec![(cut, pause)]));
+            let pkt = match c.extra_kind % 4 {
+                0 => Pkt::ConfPluginMessageIn { raw: b"\x0fminecraft:brandvanilla-with-a-longer-tail".to_vec() },
+                1 => vp_sim::scripts::client_information("de_de"),
+                2 => Pkt::ResourcePackResponse { uuid: 77, result: 0 },
+                _ => Pkt::ConfCookieResponse { raw: vec![1, b'k', 0] },
+            };
+            plan.script.insert(pos + 2, send("ExtraPluginMessage", pkt));
+            if cut > 0 {
+                plan.seg.label_splits.push(("ExtraPluginMessage".into(), vec![(cut, pause)]));
+            }
         }
     }
     let targets = mk::targets(&mut rng, 3);
